@@ -15,7 +15,7 @@ import mergecommon as mc
 
 ID = 'C11'
 TITLE = 'Merged reconstructions keep each observation on the same 3-D point and feature'
-GEN = []
+GEN = ['MergePoints']
 RULE = ('each case = 1..4 generated reconstructions (records_camera + keypoints forced, points3d / observations / matches each '
         'present or missing per input), 0..12 points per cloud, one width (3 or 6) per case plus a few mixed-width cases, '
         'overlapping image names, per-input tar or directory storage per feature kind; distinct non-trivial = distinct cases where '
